@@ -20,7 +20,7 @@ int main(void)
   uint8_t own_s[2], own_t[2], msg_s[2], msg_t[2];
   for (int i = 0; i < 2; i++) { own_s[i] = nondet_u8(); own_t[i] = nondet_u8(); msg_s[i] = nondet_u8(); msg_t[i] = nondet_u8(); cx_own_s[i] = own_s[i]; cx_own_t[i] = own_t[i]; cx_msg_s[i] = msg_s[i]; cx_msg_t[i] = msg_t[i]; }
   uint8_t enforce = nondet_bool(), silent = nondet_bool(), reliable = nondet_bool();
-  uint32_t pre_recv = nondet_u32(), pre_send = nondet_u32(); VF_ASSUME(pre_recv >= 1 && pre_recv < 10000000 && pre_send >= 1 && pre_send < 10000000);
+  uint32_t pre_recv = nondet_u32(), pre_send = nondet_u32(); VF_ASSUME(pre_recv >= 1 && pre_send >= 1);
   vf_conn_set((struct S_class_2eFIX8_3a_3aConnection*)&the_conn, ROLE, 1, 30, 0);
   vf_sess_set_seq(BASE, pre_send, pre_recv); vf_sess_set_active(BASE, 1); vf_sess_set_req_seq(BASE, 0, 0);
   vf_sess_set_flags(BASE, enforce, silent, reliable, 0, 0);
@@ -38,8 +38,8 @@ int main(void)
   m_has_reset = nondet_bool(); uint8_t reset = nondet_bool(); vf_msg_set_reset(&the_msg, reset);
   m_has_hbi = 1; m_hbi = nondet_i32(); VF_ASSUME(m_hbi >= 1 && m_hbi <= 3600);
   m_has_pd = 0; m_has_st = 1; m_st = 1000; m_has_ost = 0;
-  uint8_t d[7]; for (int i = 0; i < 7; i++) { d[i] = nondet_u8(); VF_ASSUME(d[i] >= '0' && d[i] <= '9'); }
-  uint32_t seq = digits_value(d); uint8_t raw[12]; uint32_t rawn = raw_seq(raw, d);
+  uint8_t d[ND]; for (int i = 0; i < ND; i++) { d[i] = nondet_u8(); VF_ASSUME(d[i] >= '0' && d[i] <= '9'); }
+  VF_ASSUME(digits_value(d) <= 0xffffffffULL); uint32_t seq = (uint32_t)digits_value(d); uint8_t raw[16]; uint32_t rawn = raw_seq(raw, d);
   cx_enforce = enforce; cx_auth = m_auth; cx_has_reset = m_has_reset; cx_reset = reset; cx_silent = silent; cx_reliable = reliable; cx_seq = seq; cx_pre_recv = pre_recv; cx_pre_send = pre_send; cx_hbi = m_hbi;
 
   uint8_t ret = vf_process(SESS, raw, rawn);
